@@ -1,5 +1,6 @@
 mod c01;
 mod c14;
+mod c18;
 mod gen;
 mod hist;
 mod net;
@@ -32,6 +33,7 @@ fn main() {
         "C05" => targeted::run_c05(seed, n, &mut out),
         "C06" => hist::run(seed, n, &mut out, false),
         "C07" => hist::run(seed, n, &mut out, true),
+        "C18" => c18::run(seed, n, &mut out, args.get(5).map(|s| s.as_str()).unwrap_or("quick")),
         "C13" => targeted::run_c13(seed, n, &mut out),
         "C15" => targeted::run_c15(seed, n, &mut out),
         _ => {
